@@ -3,6 +3,7 @@ package rules
 import (
 	"fmt"
 	"go/ast"
+	"go/token"
 	"go/types"
 	"strings"
 
@@ -206,7 +207,7 @@ func init() {
 	register(&core.Rule{ID: "timeout-header-from-deadline-only", Run: timeoutHeaderFromDeadlineOnly,
 		Doc: "In the protocol clients' NewConn, whether and what timeout header is written depends on the context's deadline alone: no condition on the way to `header[<timeout header>] = …` looks at the header map (a value left in a re-used Request's headers by an earlier call must be overwritten, or the server is told a longer timeout than the call has left)."})
 	register(&core.Rule{ID: "closed-pipe-is-eof", Run: closedPipeIsEOF,
-		Doc: "duplexHTTPCall.Write reports a closed request pipe as io.EOF and nothing else, however many bytes were handed over: every return on a path where errors.Is(err, io.ErrClosedPipe) holds returns io.EOF, which the marshalers and CallUnary recognise as 'stream closed, ask Receive why'."})
+		Doc: "duplexHTTPCall.Write reports a closed request pipe as io.EOF and nothing else, however many bytes were handed over: every return on a path where errors.Is(err, io.ErrClosedPipe) holds returns io.EOF, which the marshalers and CallUnary recognise as 'stream closed, ask Receive why'; every return that hands the pipe writer's error variable back untranslated lies on a path where errors.Is(err, io.ErrClosedPipe) is known false or err is known nil, so no side condition (bytes written, a flag) lets the closed-pipe error through."})
 	register(&core.Rule{ID: "newchain-keeps-elements-whole", Run: newChainKeepsElementsWhole,
 		Doc: "newChain stores the interceptors it is handed as they are (in its one reversing loop): it does not look inside an element (no type assertion or type switch), so a nested chain stays one element with its own, already reversed, order."})
 	register(&core.Rule{ID: "status-message-wins", Run: statusMessageWins,
@@ -281,6 +282,28 @@ func closedPipeIsEOF(c *core.Ctx) {
 			return ok && pol && astx.IsPkgVar(info, target, "io", "ErrClosedPipe")
 		})
 		if !isClosed {
+			// an exit that hands the writer's error back untranslated must know that it is not the closed-pipe
+			// error (or that there is none): a further condition next to the errors.Is test (bytes written,
+			// a flag) lets io.ErrClosedPipe through on the paths where that condition fails
+			if v, isVar := astx.ObjOf(info, astx.Unparen(ret.Results[1])).(*types.Var); isVar && v != nil {
+				excluded := s.HasFact(func(e ast.Expr, pol bool) bool {
+					if _, target, ok := astx.IsErrorsIs(info, e); ok {
+						return !pol && astx.IsPkgVar(info, target, "io", "ErrClosedPipe")
+					}
+					l, op, r, ok := astx.CompareOp(astx.Unparen(e))
+					if !ok || (op != token.EQL && op != token.NEQ) {
+						return false
+					}
+					if astx.IsNil(info, l) {
+						l, r = r, l
+					}
+					return astx.ObjOf(info, l) == types.Object(v) && astx.IsNil(info, r) && (op == token.EQL) == pol
+				})
+				if !excluded {
+					bad++
+					where = append(where, "the exit at "+p.Pos(ret.Pos())+" returns "+v.Name()+" without having excluded io.ErrClosedPipe")
+				}
+			}
 			return
 		}
 		closed++
